@@ -84,25 +84,25 @@ theorem setField_struct (cur : List (S × Val)) (name : S) (x : Val) :
 def StConvU (p : Program) (fuel : Nat) : Prop :=
   ∀ (fr : Frame) (c : Conv) (s t : Ty) (v old : Val) (n : Nat) (v' : Val) (n' : Nat),
     HasTyU p c s t → WT p.conv.env v s → OldOK p.conv.env old t →
-    evalConv p fuel fr c v old n = .ok (v', n') → ImgOnto p.conv.env s t v (erase old) (erase v')
+    evalConv p fuel fr c v old n = .ok (v', n') → ImgOnto p.conv.env (CtorSig p) s t v (erase old) (erase v')
 
 def StCallU (p : Program) (fuel : Nat) : Prop :=
   ∀ (m : Nat) (s t : Ty) (v : Val) (cs : List Val) (n : Nat) (v' : Val) (n' : Nat),
     sigOf p m = some (s, t) → WT p.conv.env v s →
     callMethod p fuel m v cs n = .ok (v', n') →
-    ImgOnto p.conv.env s t v (erase (zeroVal p.conv.env 64 t)) (erase v')
+    ∀ old, ImgOnto p.conv.env (CtorSig p) s t v old (erase v')
 
 def StElemsU (p : Program) (fuel : Nat) : Prop :=
   ∀ (fr : Frame) (elem : Conv) (se te : Ty) (vs : List Val) (i n : Nat) (out : List Val) (n' : Nat),
     HasTyU p elem se te → (∀ v, v ∈ vs → WT p.conv.env v se) →
-    evalElems p fuel fr te elem vs i n = .ok (out, n') → ImgListOnto p.conv.env se te vs (erase.eraseList out)
+    evalElems p fuel fr te elem vs i n = .ok (out, n') → ImgListOnto p.conv.env (CtorSig p) se te vs (erase.eraseList out)
 
 def StEntriesU (p : Program) (fuel : Nat) : Prop :=
   ∀ (fr : Frame) (key val : Conv) (sk sv tk tv : Ty) (kvs : List (Val × Val)) (n : Nat) (out : List (Val × Val)) (n' : Nat),
     HasTyU p key sk tk → HasTyU p val sv tv →
     (∀ a b, (a, b) ∈ kvs → WT p.conv.env a sk) → (∀ a b, (a, b) ∈ kvs → WT p.conv.env b sv) →
     evalEntries p fuel fr tk tv key val kvs n = .ok (out, n') →
-    ImgEntriesOnto p.conv.env sk sv tk tv kvs (erase.eraseEntries out)
+    ImgEntriesOnto p.conv.env (CtorSig p) sk sv tk tv kvs (erase.eraseEntries out)
 
 /-- the loop invariant of the field-by-field assignment: `cur` is the target struct as it is now (the fields already
 processed assigned, the remaining fields `tfs` still holding what the previous value `orig` held) -/
@@ -119,10 +119,249 @@ def StFieldsU (p : Program) (fuel : Nat) : Prop :=
     (∀ name, name ∈ fieldNames tfs → cur.lookup name = orig.lookup name) →
     evalFields p fuel fr plans src (.struct cur) n = .ok (v', n') →
     ∃ ws, v' = .struct ws ∧ (∀ name, name ∉ fieldNames tfs → ws.lookup name = cur.lookup name) ∧
-      ImgFieldsOnto p.conv.env (modesOf plans) sfs fs tfs (erase.eraseFields orig) (erase.eraseFields ws)
+      ImgFieldsOnto p.conv.env (CtorSig p) (modesOf plans) sfs fs tfs (erase.eraseFields orig) (erase.eraseFields ws)
 
-theorem stCallU_step (p : Program) (hp : ProgOKU p) (fuel : Nat) (ih : StConvU p fuel) : StCallU p (fuel + 1) := by
-  intro m s t v cs n v' n' hsig hwt hev
+/-! ### default constructors -/
+
+theorem isPtr_some {env : TEnv} {t e : Ty} (h : isPtr env t = some e) : under env t = .ptr e := by
+  unfold isPtr at h
+  split at h
+  · rename_i e' he; cases h; exact he
+  · cases h
+
+theorem isPtr_none {env : TEnv} {t : Ty} (h : isPtr env t = none) : ∀ e, under env t ≠ .ptr e := by
+  intro e he
+  unfold isPtr at h
+  rw [he] at h
+  cases h
+
+theorem argOf_state (fr : Frame) (src : Val) (a : CallArg) (n : Nat) (o : Option Val) (n1 : Nat)
+    (h : argOf fr src a n = .ok (o, n1)) : n1 = n := by
+  cases a with
+  | self => have := (E_pure_ok _ _ _).1 h; cases this; rfl
+  | source => have := (E_pure_ok _ _ _).1 h; cases this; rfl
+  | ctxMissing t => cases h
+  | ctx t =>
+    unfold argOf at h
+    cases hl : lookupCtx fr t with
+    | none => simp only [hl] at h; cases h
+    | some x => simp only [hl] at h; have := (E_pure_ok _ _ _).1 h; cases this; rfl
+  | sourceParent =>
+    unfold argOf at h
+    cases hl : fr.parent with
+    | none => simp only [hl] at h; cases h
+    | some x => simp only [hl] at h; have := (E_pure_ok _ _ _).1 h; cases this; rfl
+
+theorem ite_bind_ok {α β} (tp : Bool) (a b : E α) (k : α → E β) (n : Nat) (r : β × Nat)
+    (h : (if tp = true then a >>= k else b >>= k) n = .ok r) :
+    ∃ x n2, (if tp = true then a else b) n = .ok (x, n2) ∧ k x n2 = .ok r := by
+  cases tp with
+  | true => simp only [if_true] at h ⊢; exact (E_bind_ok _ _ _ _).1 h
+  | false => simp only [Bool.false_eq_true, if_false] at h ⊢; exact (E_bind_ok _ _ _ _).1 h
+
+/-- evaluating the arguments of a call allocates nothing -/
+theorem filterMapM_loop_state (fr : Frame) (src : Val) : ∀ (args : List CallArg) (acc : List Val) (n : Nat) (r : List Val) (n1 : Nat),
+    List.filterMapM.loop (argOf fr src) args acc n = .ok (r, n1) → n1 = n := by
+  intro args
+  induction args with
+  | nil =>
+    intro acc n r n1 h
+    unfold List.filterMapM.loop at h
+    have := (E_pure_ok _ _ _).1 h
+    cases this; rfl
+  | cons a as ih =>
+    intro acc n r n1 h
+    unfold List.filterMapM.loop at h
+    obtain ⟨o, n2, h1, h2⟩ := (E_bind_ok _ _ _ _).1 h
+    have h12 := argOf_state fr src a n o n2 h1
+    subst h12
+    cases o with
+    | none => exact ih _ _ _ _ h2
+    | some b => exact ih _ _ _ _ h2
+
+/-- what the constructor call of `default FUNC` evaluates to: `ctorVal` of its result type (behind a fresh pointer — the
+first location the call allocates — when the function returns a pointer) -/
+theorem ctor_call_eval (p : Program) (fuel : Nat) (fr : Frame) (i : Nat) (args : List CallArg) (retErr : Bool) (w : Wrap)
+    (d : FnDef) (src old : Val) (n : Nat) (cv : Val) (n1 : Nat)
+    (hd : p.conv.customs[i]? = some d) (hc : p.sem.isCtor d.name = true)
+    (h : evalConv p fuel fr (.call (.custom i) args retErr w) src old n = .ok (cv, n1)) :
+    (isPtr p.conv.env d.target = none ∧ cv = ctorVal p.conv.env 64 d.target ∧ n1 = n) ∨
+    (∃ e, isPtr p.conv.env d.target = some e ∧ cv = .ptr (.fresh n) (ctorVal p.conv.env 64 e) ∧ n1 = n + 1) := by
+  cases fuel with
+  | zero => unfold evalConv at h; cases h
+  | succ fuel =>
+    unfold evalConv at h
+    obtain ⟨argVals, n2, h1, h2⟩ := (E_bind_ok _ _ _ _).1 h
+    have hn2 : n2 = n := filterMapM_loop_state fr src args [] n argVals n2 h1
+    subst hn2
+    dsimp only at h2
+    rw [hd] at h2
+    dsimp only at h2
+    split at h2
+    · cases h2
+    · cases hp : isPtr p.conv.env d.target with
+      | none =>
+        simp only [hp] at h2
+        have := (E_pure_ok _ _ _).1 h2
+        cases this
+        exact .inl ⟨rfl, rfl, rfl⟩
+      | some e =>
+        simp only [hp] at h2
+        obtain ⟨l, n3, h3, h4⟩ := (E_bind_ok _ _ _ _).1 h2
+        cases h3
+        have := (E_pure_ok _ _ _).1 h4
+        cases this
+        exact .inr ⟨e, rfl, rfl, rfl⟩
+
+/-- the value a method with `default FUNC` starts from -/
+theorem ctor_init (p : Program) {ctor : Conv} {tp : Bool} {t : Ty} (hc : HasCtor p ctor tp t) (fuel : Nat) (fr : Frame)
+    (src old : Val) (n : Nat) (cv : Val) (n1 : Nat) (init : Val) (n2 : Nat)
+    (h1 : evalConv p fuel fr ctor src old n = .ok (cv, n1))
+    (h2 : (if tp then (do let l ← freshLoc; pure (Val.ptr l cv)) else pure cv : E Val) n1 = .ok (init, n2)) :
+    IsCtorOf p.conv.env t (erase init) ∧ OldOK p.conv.env init t ∧
+      (∀ te, under p.conv.env t = .ptr te → ∃ tv, init = .ptr (.fresh n) tv ∧ OldOK p.conv.env tv te) := by
+  obtain ⟨i, args, retErr, w, d, rfl, hd, hcd, hshape⟩ := hc
+  have hev := ctor_call_eval p fuel fr i args retErr w d src old n cv n1 hd hcd h1
+  cases tp with
+  | true =>
+    simp only [if_true] at hshape h2
+    obtain ⟨te, hte, hdt, hnp⟩ := hshape
+    obtain ⟨l, n3, h3, h4⟩ := (E_bind_ok _ _ _ _).1 h2
+    cases h3
+    have := (E_pure_ok _ _ _).1 h4
+    cases this
+    rcases hev with ⟨_, hcv, hn⟩ | ⟨e, he, _, _⟩
+    · subst hn; subst hcv; subst hdt
+      refine ⟨.inr ⟨_, hte, rfl⟩, .nonStruct (fun fs hh => by rw [hte] at hh; cases hh), ?_⟩
+      intro te' hte'
+      rw [hte] at hte'
+      cases hte'
+      exact ⟨_, rfl, oldOK_ctorVal _ 64 _⟩
+    · rw [hnp] at he; cases he
+  | false =>
+    simp only [Bool.false_eq_true, if_false] at hshape h2
+    have := (E_pure_ok _ _ _).1 h2
+    cases this
+    subst hshape
+    rcases hev with ⟨hnp, hcv, hn⟩ | ⟨e, he, hcv, hn⟩
+    · subst hcv
+      refine ⟨.inl ⟨isPtr_none hnp, rfl⟩, oldOK_ctorVal _ 64 _, ?_⟩
+      intro te hte
+      exact absurd hte (isPtr_none hnp te)
+    · subst hcv
+      have hte := isPtr_some he
+      refine ⟨.inr ⟨e, hte, rfl⟩, .nonStruct (fun fs hh => by rw [hte] at hh; cases hh), ?_⟩
+      intro te' hte'
+      rw [hte] at hte'
+      cases hte'
+      exact ⟨_, rfl, oldOK_ctorVal _ 64 _⟩
+
+/-- a nil source pointer leaves what the location holds (builder code, not a call of another method) -/
+theorem nil_source_kept (p : Program) (fuel : Nat) (fr : Frame) (rest : Conv) (s t se : Ty) (old : Val) (n : Nat) (v' : Val) (n' : Nat)
+    (hty : HasTyU p rest s t) (hs : under p.conv.env s = .ptr se) (hnc : ∀ cl a r w, rest ≠ .call cl a r w)
+    (hev : evalConv p fuel fr rest .nil old n = .ok (v', n')) : v' = old := by
+  cases fuel with
+  | zero => unfold evalConv at hev; cases hev
+  | succ fuel =>
+    cases hty with
+    | identBasic h _ => rw [hs] at h; cases h
+    | castBasic h _ => rw [hs] at h; cases h
+    | callMethod _ => exact absurd rfl (hnc _ _ _ _)
+    | ptrPtr _ _ _ =>
+      unfold evalConv at hev
+      have := (E_pure_ok _ _ _).1 hev
+      cases this; rfl
+    | tgtPtr h _ _ => exact absurd hs (h se)
+    | srcPtr _ _ _ =>
+      unfold evalConv at hev
+      have := (E_pure_ok _ _ _).1 hev
+      cases this; rfl
+    | slice h _ _ => rw [hs] at h; cases h
+    | array h _ _ => rw [hs] at h; cases h
+    | mapc h _ _ _ => rw [hs] at h; cases h
+    | structc h _ _ _ => rw [hs] at h; cases h
+
+/-- plain `default FUNC`: the conversion is assigned ONTO the constructor's value -/
+theorem withCtor_step (p : Program) (fuel : Nat) (ihc : StConvU p fuel) (fr : Frame) (ctor : Conv) (tp : Bool) (rest : Conv)
+    (s t : Ty) (v old : Val) (n : Nat) (v' : Val) (n' : Nat)
+    (hc : HasCtor p ctor tp t) (hnc : ∀ cl a r w, rest ≠ .call cl a r w) (hty : HasTyU p rest s t) (hwt : WT p.conv.env v s)
+    (hev : evalConv p (fuel + 1) fr (.withCtor ctor tp rest) v old n = .ok (v', n')) :
+    ∃ init, IsCtorOf p.conv.env t (erase init) ∧
+      (∀ te, under p.conv.env t = .ptr te → ∃ tv, init = .ptr (.fresh n) tv) ∧
+      ImgOnto p.conv.env (CtorSig p) s t v (erase init) (erase v') ∧
+      (∀ se, under p.conv.env s = .ptr se → v = .nil → v' = init) := by
+  unfold evalConv at hev
+  obtain ⟨cv, n1, h1, h2⟩ := (E_bind_ok _ _ _ _).1 hev
+  obtain ⟨init, n2, h3, h4⟩ := ite_bind_ok _ _ _ _ _ _ h2
+  obtain ⟨hI, hO, hP⟩ := ctor_init p hc fuel fr v .nil n cv n1 init n2 h1 h3
+  refine ⟨init, hI, fun te hte => ?_, ihc fr rest s t v init n2 v' n' hty hwt hO h4, fun se hse hv => ?_⟩
+  · obtain ⟨tv, htv, _⟩ := hP te hte
+    exact ⟨tv, htv⟩
+  · subst hv
+    exact nil_source_kept p fuel fr rest s t se init n2 v' n' hty hse hnc h4
+
+/-- `default FUNC` with default:update: the source is applied on top of the constructor's object; for a pointer target
+the pointer returned is the constructor's (the first location the call allocated) -/
+theorem ctorUpdate_step (p : Program) (fuel : Nat) (ihc : StConvU p fuel) (fr : Frame) (ctor : Conv) (tp sp tz : Bool)
+    (inner : Conv) (s t : Ty) (v old : Val) (n : Nat) (v' : Val) (n' : Nat)
+    (hok : ConvertOKU p (.ctorUpdate ctor tp sp tz inner) s t) (hwt : WT p.conv.env v s)
+    (hev : evalConv p (fuel + 1) fr (.ctorUpdate ctor tp sp tz inner) v old n = .ok (v', n')) :
+    ∃ init, IsCtorOf p.conv.env t (erase init) ∧
+      CtorImg p.conv.env (CtorSig p) true s t v (erase init) (erase v') ∧
+      (tz = true → ∃ tv nv, init = .ptr (.fresh n) tv ∧ v' = .ptr (.fresh n) nv) ∧
+      (sp = true → v = .nil → v' = init) := by
+  unfold evalConv at hev
+  obtain ⟨cv, n1, h1, h2⟩ := (E_bind_ok _ _ _ _).1 hev
+  obtain ⟨init, n2, h3, h4⟩ := ite_bind_ok _ _ _ _ _ _ h2
+  cases hok with
+  | plain h => cases h
+  | @updPtrPtr _ _ _ _ _ se te hc hs ht hin =>
+    obtain ⟨hI, hO, hP⟩ := ctor_init p hc fuel fr v .nil n cv n1 init n2 h1 h3
+    obtain ⟨tv, rfl, htv⟩ := hP te ht
+    simp only [if_true] at h4
+    rcases wt_ptr_inv hwt hs with rfl | ⟨l, x, rfl, hx⟩
+    · have := (E_pure_ok _ _ _).1 h4
+      cases this
+      exact ⟨_, hI, .updNil hs, fun _ => ⟨tv, tv, rfl, rfl⟩, fun _ _ => rfl⟩
+    · simp only [] at h4
+      obtain ⟨nv, n3, h5, h6⟩ := (E_bind_ok _ _ _ _).1 h4
+      have := (E_pure_ok _ _ _).1 h6
+      cases this
+      have himg := ihc _ inner se te x tv n2 nv _ hin hx htv h5
+      exact ⟨_, hI, .updPtrPtr hs ht himg, fun _ => ⟨tv, nv, rfl, rfl⟩, fun _ h => nomatch h⟩
+  | @updSrcPtr _ _ _ _ _ se hc hs ht hin =>
+    obtain ⟨hI, hO, hP⟩ := ctor_init p hc fuel fr v .nil n cv n1 init n2 h1 h3
+    simp only [if_true, Bool.false_eq_true, if_false] at h4
+    rcases wt_ptr_inv hwt hs with rfl | ⟨l, x, rfl, hx⟩
+    · have := (E_pure_ok _ _ _).1 h4
+      cases this
+      exact ⟨_, hI, .updNil hs, (fun h => nomatch h), fun _ _ => rfl⟩
+    · simp only [] at h4
+      have himg := ihc _ inner se t x init n2 v' n' hin hx hO h4
+      exact ⟨_, hI, .updSrcPtr hs ht himg, (fun h => nomatch h), fun _ h => nomatch h⟩
+  | @updTgtPtr _ _ _ _ _ te hc hs ht hin =>
+    obtain ⟨hI, hO, hP⟩ := ctor_init p hc fuel fr v .nil n cv n1 init n2 h1 h3
+    obtain ⟨tv, rfl, htv⟩ := hP te ht
+    simp only [if_true, Bool.false_eq_true, if_false] at h4
+    obtain ⟨nv, n3, h5, h6⟩ := (E_bind_ok _ _ _ _).1 h4
+    have := (E_pure_ok _ _ _).1 h6
+    cases this
+    have himg := ihc _ inner s te v tv n2 nv _ hin hwt htv h5
+    exact ⟨_, hI, .updTgtPtr hs ht himg, fun _ => ⟨tv, nv, rfl, rfl⟩, fun h => nomatch h⟩
+
+theorem ctorSig_plain {p : Program} {m : Nat} {gm : GenMethod} {ctor : Conv} {tp : Bool} {rest : Conv}
+    (hm : p.methods[m]? = some gm) (hb : gm.body = some (.convert (.withCtor ctor tp rest))) :
+    CtorSig p gm.source gm.target false :=
+  ⟨m, gm, hm, rfl, rfl, .inl ⟨rfl, ctor, tp, rest, hb⟩⟩
+
+theorem ctorSig_update {p : Program} {m : Nat} {gm : GenMethod} {ctor : Conv} {tp a b : Bool} {inner : Conv}
+    (hm : p.methods[m]? = some gm) (hb : gm.body = some (.convert (.ctorUpdate ctor tp a b inner))) :
+    CtorSig p gm.source gm.target true :=
+  ⟨m, gm, hm, rfl, rfl, .inr ⟨rfl, ctor, tp, a, b, inner, hb⟩⟩
+
+theorem stCallU_step (p : Program) (hp : ProgOKU p) (fuel : Nat) (ih : StConvU p fuel)
+    (ihs : ∀ j, j < fuel → StConvU p j) : StCallU p (fuel + 1) := by
+  intro m s t v cs n v' n' hsig hwt hev old
   unfold callMethod at hev
   unfold sigOf at hsig
   cases hm : p.methods[m]? with
@@ -143,7 +382,36 @@ theorem stCallU_step (p : Program) (hp : ProgOKU p) (fuel : Nat) (ih : StConvU p
       | convert c =>
         simp only [hbody] at hev
         subst hs; subst ht
-        exact ih _ c _ _ v _ n v' n' hb hwt (oldOK_zeroVal _ 64 _) hev
+        cases hb with
+        | plain hty =>
+          exact .replaced (.inr ⟨64, rfl⟩) (ih _ c _ _ v _ n v' n' hty hwt (oldOK_zeroVal _ 64 _) hev)
+        | withCtor hc hnc hty =>
+          cases fuel with
+          | zero => unfold evalConv at hev; cases hev
+          | succ f =>
+            obtain ⟨init, hI, _, himg, _⟩ := withCtor_step p f (ihs f (Nat.lt_succ_self f)) _ _ _ _ _ _ v _ n v' n' hc hnc hty hwt hev
+            exact .ctorStart (ctorSig_plain hm hbody) hI himg
+        | updPtrPtr hc hs' ht' hin =>
+          cases fuel with
+          | zero => unfold evalConv at hev; cases hev
+          | succ f =>
+            obtain ⟨init, hI, himg, _, _⟩ := ctorUpdate_step p f (ihs f (Nat.lt_succ_self f)) _ _ _ _ _ _ _ _ v _ n v' n'
+              (.updPtrPtr hc hs' ht' hin) hwt hev
+            exact himg.onto (ctorSig_update hm hbody) hI old
+        | updSrcPtr hc hs' ht' hin =>
+          cases fuel with
+          | zero => unfold evalConv at hev; cases hev
+          | succ f =>
+            obtain ⟨init, hI, himg, _, _⟩ := ctorUpdate_step p f (ihs f (Nat.lt_succ_self f)) _ _ _ _ _ _ _ _ v _ n v' n'
+              (.updSrcPtr hc hs' ht' hin) hwt hev
+            exact himg.onto (ctorSig_update hm hbody) hI old
+        | updTgtPtr hc hs' ht' hin =>
+          cases fuel with
+          | zero => unfold evalConv at hev; cases hev
+          | succ f =>
+            obtain ⟨init, hI, himg, _, _⟩ := ctorUpdate_step p f (ihs f (Nat.lt_succ_self f)) _ _ _ _ _ _ _ _ v _ n v' n'
+              (.updTgtPtr hc hs' ht' hin) hwt hev
+            exact himg.onto (ctorSig_update hm hbody) hI old
 
 theorem stElemsU_step (p : Program) (fuel : Nat) (ihc : StConvU p fuel) (ihe : StElemsU p fuel) : StElemsU p (fuel + 1) := by
   intro fr elem se te vs i n out n' hty hwt hev
@@ -235,7 +503,7 @@ theorem fields_kept (p : Program) (fuel : Nat) (ihf : StFieldsU p fuel) {fr : Fr
     (hev : evalFields p fuel fr rest src (.struct cur) n = .ok (v', n')) :
     ∃ ws, v' = .struct ws ∧ (∀ name, name ∉ fieldNames ((tf, tty) :: tfs') → ws.lookup name = cur.lookup name) ∧
       (erase.eraseFields ws).lookup tf.name = (erase.eraseFields orig).lookup tf.name ∧
-      ImgFieldsOnto p.conv.env (modesOf rest) sfs fs tfs' (erase.eraseFields orig) (erase.eraseFields ws) := by
+      ImgFieldsOnto p.conv.env (CtorSig p) (modesOf rest) sfs fs tfs' (erase.eraseFields orig) (erase.eraseFields ws) := by
   have hnd' : tf.name ∉ fieldNames tfs' ∧ (fieldNames tfs').Nodup := by simpa [fieldNames] using hnd
   obtain ⟨ws, hv', hframe, himg⟩ := ihf fr rest sfs tfs' src fs cur orig n v' n' hrest hsrc hwt hnd'.2
     (fun name x f ty hl hf => hold name x f ty hl (find_tail hnd'.1 hf).2.2)
@@ -258,7 +526,7 @@ theorem fields_assigned (p : Program) (fuel : Nat) (ihf : StFieldsU p fuel) {fr 
     (hev : evalFields p fuel fr rest src (setField (.struct cur) tf.name nv) n = .ok (v', n')) :
     ∃ ws, v' = .struct ws ∧ (∀ name, name ∉ fieldNames ((tf, tty) :: tfs') → ws.lookup name = cur.lookup name) ∧
       (erase.eraseFields ws).lookup tf.name = some (erase nv) ∧
-      ImgFieldsOnto p.conv.env (modesOf rest) sfs fs tfs' (erase.eraseFields orig) (erase.eraseFields ws) := by
+      ImgFieldsOnto p.conv.env (CtorSig p) (modesOf rest) sfs fs tfs' (erase.eraseFields orig) (erase.eraseFields ws) := by
   have hnd' : tf.name ∉ fieldNames tfs' ∧ (fieldNames tfs').Nodup := by simpa [fieldNames] using hnd
   obtain ⟨cur', hset, hself, hother⟩ := setField_struct cur tf.name nv
   rw [hset] at hev
@@ -318,8 +586,8 @@ theorem stFieldsU_step (p : Program) (fuel : Nat) (ihc : StConvU p fuel) (ihf : 
           evalFields p fuel fr rest src (setField (.struct cur) tf.name nv) n1 = .ok (v', n') →
           ∃ ws y, v' = .struct ws ∧ (∀ name, name ∉ fieldNames ((tf, tty) :: tfs') → ws.lookup name = cur.lookup name) ∧
             (erase.eraseFields ws).lookup tf.name = some y ∧
-            ImgOnto p.conv.env sty tty x (((erase.eraseFields orig).lookup tf.name).getD .nil) y ∧
-            ImgFieldsOnto p.conv.env (modesOf rest) sfs fs tfs' (erase.eraseFields orig) (erase.eraseFields ws) := by
+            ImgOnto p.conv.env (CtorSig p) sty tty x (((erase.eraseFields orig).lookup tf.name).getD .nil) y ∧
+            ImgFieldsOnto p.conv.env (CtorSig p) (modesOf rest) sfs fs tfs' (erase.eraseFields orig) (erase.eraseFields ws) := by
         intro nv n1 hc hev'
         have himg := ihc _ cv sty tty x _ n nv n1 hcv (hwt _ _ _ _ hx hfind) holdF hc
         obtain ⟨ws, hv', hframe, hself, hrestImg⟩ := fields_assigned p fuel ihf hrest hsrc hwt hnd hold hag hev'
@@ -399,8 +667,7 @@ theorem stConvU_step (p : Program) (fuel : Nat) (ihc : StConvU p fuel) (ihm : St
       rw [hcm] at h2
       cases h2
       -- the callee assigns onto its own fresh result variable; the caller's location is overwritten by the result
-      have hcall := ihm m s t v [] n1 v' n' hsig hwt hcm
-      exact .replaced (.inr ⟨64, rfl⟩) hcall
+      exact ihm m s t v [] n1 v' n' hsig hwt hcm (erase old)
     | err e => rw [hcm] at h2; cases h2
     | panic k => rw [hcm] at h2; cases h2
     | stuck w => rw [hcm] at h2; cases h2
@@ -415,7 +682,7 @@ theorem stConvU_step (p : Program) (fuel : Nat) (ihc : StConvU p fuel) (ihm : St
       have := (E_pure_ok _ _ _).1 h4
       cases this
       have := ihc _ inner se te x _ n v0 n1 hin hx (oldOK_zeroVal _ 64 _) h1
-      show ImgOnto p.conv.env s t (.ptr l x) (erase old) (.ptr .none (erase v0))
+      show ImgOnto p.conv.env (CtorSig p) s t (.ptr l x) (erase old) (.ptr .none (erase v0))
       exact .ptrPtr hs ht (.inr ⟨64, rfl⟩) this
   | @tgtPtr _ _ te inner hs ht hin =>
     unfold evalConv at hev
@@ -424,7 +691,7 @@ theorem stConvU_step (p : Program) (fuel : Nat) (ihc : StConvU p fuel) (ihm : St
     have := (E_pure_ok _ _ _).1 h4
     cases this
     have := ihc _ inner s te v _ n v0 n1 hin hwt (oldOK_zeroVal _ 64 _) h1
-    show ImgOnto p.conv.env s t v (erase old) (.ptr .none (erase v0))
+    show ImgOnto p.conv.env (CtorSig p) s t v (erase old) (.ptr .none (erase v0))
     exact .toPtr hs ht (.inr ⟨64, rfl⟩) this
   | @srcPtr _ _ se inner hs ht hin =>
     unfold evalConv at hev
@@ -452,7 +719,7 @@ theorem stConvU_step (p : Program) (fuel : Nat) (ihc : StConvU p fuel) (ihm : St
         cases this
         have hvs0 : vs = [] := by simpa using hvsE
         subst hvs0
-        show ImgOnto p.conv.env s t (.slice l []) (erase old) (.slice .none [])
+        show ImgOnto p.conv.env (CtorSig p) s t (.slice l []) (erase old) (.slice .none [])
         exact .slice hs ht .nil
       | false =>
         rw [hvsE] at h2
@@ -460,7 +727,7 @@ theorem stConvU_step (p : Program) (fuel : Nat) (ihc : StConvU p fuel) (ihm : St
         obtain ⟨l0, n2, h3, h4⟩ := (E_bind_ok _ _ _ _).1 h2
         have := (E_pure_ok _ _ _).1 h4
         cases this
-        show ImgOnto p.conv.env s t (.slice l vs) (erase old) (.slice .none (erase.eraseList out))
+        show ImgOnto p.conv.env (CtorSig p) s t (.slice l vs) (erase old) (.slice .none (erase.eraseList out))
         exact .slice hs ht himg
   | @array _ _ k se te elem hs ht hel =>
     unfold evalConv at hev
@@ -476,7 +743,7 @@ theorem stConvU_step (p : Program) (fuel : Nat) (ihc : StConvU p fuel) (ihm : St
       cases this
       have hvs0 : vs = [] := by simpa using hvsE
       subst hvs0
-      show ImgOnto p.conv.env s t (.arr []) (erase old) (.slice .none [])
+      show ImgOnto p.conv.env (CtorSig p) s t (.arr []) (erase old) (.slice .none [])
       exact .array hs ht .nil
     | false =>
       rw [hvsE] at h2
@@ -484,7 +751,7 @@ theorem stConvU_step (p : Program) (fuel : Nat) (ihc : StConvU p fuel) (ihm : St
       obtain ⟨l0, n2, h3, h4⟩ := (E_bind_ok _ _ _ _).1 h2
       have := (E_pure_ok _ _ _).1 h4
       cases this
-      show ImgOnto p.conv.env s t (.arr vs) (erase old) (.slice .none (erase.eraseList out))
+      show ImgOnto p.conv.env (CtorSig p) s t (.arr vs) (erase old) (.slice .none (erase.eraseList out))
       exact .array hs ht himg
   | @mapc _ _ sk sv tk tv key val hs ht hk hv =>
     unfold evalConv at hev
@@ -497,7 +764,7 @@ theorem stConvU_step (p : Program) (fuel : Nat) (ihc : StConvU p fuel) (ihm : St
       have := (E_pure_ok _ _ _).1 h4
       cases this
       have himg := ihn fr key val sk sv tk tv kvs n out n1 hk hv hwk hwv h1
-      show ImgOnto p.conv.env s t (.map l kvs) (erase old) (.map .none (erase.eraseEntries out))
+      show ImgOnto p.conv.env (CtorSig p) s t (.map l kvs) (erase old) (.map .none (erase.eraseEntries out))
       exact .map hs ht himg
   | @structc _ _ sfs tfs plans upd hs ht hnd hfs =>
     unfold evalConv at hev
@@ -507,7 +774,7 @@ theorem stConvU_step (p : Program) (fuel : Nat) (ihc : StConvU p fuel) (ihm : St
     obtain ⟨ws, hv', _, hws⟩ := ihf fr plans sfs.toList tfs.toList (.struct fs) fs ofs ofs n v' n' hfs (.inl rfl) hfwt hnd hoOK
       (fun _ _ => rfl) (by simpa using hev)
     subst hv'
-    show ImgOnto p.conv.env s t (.struct fs) (erase old) (.struct (erase.eraseFields ws))
+    show ImgOnto p.conv.env (CtorSig p) s t (.struct fs) (erase old) (.struct (erase.eraseFields ws))
     refine .struct hs ht (modes := modesOf plans) ?_
     rw [oldFields_erase, hofs]
     exact hws
@@ -517,18 +784,21 @@ theorem stConvU_step (p : Program) (fuel : Nat) (ihc : StConvU p fuel) (ihm : St
 theorem sound_allU (p : Program) (hp : ProgOKU p) :
     ∀ fuel, StConvU p fuel ∧ StCallU p fuel ∧ StElemsU p fuel ∧ StEntriesU p fuel ∧ StFieldsU p fuel := by
   intro fuel
-  induction fuel with
-  | zero =>
-    refine ⟨?_, ?_, ?_, ?_, ?_⟩
-    · intro fr c s t v old n v' n' _ _ _ hev; unfold evalConv at hev; cases hev
-    · intro m s t v cs n v' n' _ _ hev; unfold callMethod at hev; cases hev
-    · intro fr elem se te vs i n out n' _ _ hev; unfold evalElems at hev; cases hev
-    · intro fr key val sk sv tk tv kvs n out n' _ _ _ _ hev; unfold evalEntries at hev; cases hev
-    · intro fr plans sfs tfs src fs cur orig n v' n' _ _ _ _ _ _ hev; unfold evalFields at hev; cases hev
-  | succ fuel ih =>
-    obtain ⟨ihc, ihm, ihe, ihn, ihf⟩ := ih
-    exact ⟨stConvU_step p fuel ihc ihm ihe ihn ihf, stCallU_step p hp fuel ihc, stElemsU_step p fuel ihc ihe,
-      stEntriesU_step p fuel ihc ihn, stFieldsU_step p fuel ihc ihf⟩
+  induction fuel using Nat.strongRecOn with
+  | ind fuel ih =>
+    cases fuel with
+    | zero =>
+      refine ⟨?_, ?_, ?_, ?_, ?_⟩
+      · intro fr c s t v old n v' n' _ _ _ hev; unfold evalConv at hev; cases hev
+      · intro m s t v cs n v' n' _ _ hev; unfold callMethod at hev; cases hev
+      · intro fr elem se te vs i n out n' _ _ hev; unfold evalElems at hev; cases hev
+      · intro fr key val sk sv tk tv kvs n out n' _ _ _ _ hev; unfold evalEntries at hev; cases hev
+      · intro fr plans sfs tfs src fs cur orig n v' n' _ _ _ _ _ _ hev; unfold evalFields at hev; cases hev
+    | succ fuel =>
+      obtain ⟨ihc, ihm, ihe, ihn, ihf⟩ := ih fuel (Nat.lt_succ_self fuel)
+      exact ⟨stConvU_step p fuel ihc ihm ihe ihn ihf,
+        stCallU_step p hp fuel ihc (fun j hj => (ih j (Nat.lt_succ_of_lt hj)).1),
+        stElemsU_step p fuel ihc ihe, stEntriesU_step p fuel ihc ihn, stFieldsU_step p fuel ihc ihf⟩
 
 /-- **Soundness of plans with ignored fields, zero guards and update structs** (C05 / C10, composite): whatever a plan of
 the generalised fragment returns for a well-typed source value and an admissible previous target value is the assignment
@@ -536,15 +806,29 @@ image of the source onto the previous value — for every value, of any size and
 theorem evalConv_onto (p : Program) (hp : ProgOKU p) (fuel : Nat) (fr : Frame) (c : Conv) (s t : Ty) (v old : Val)
     (n : Nat) (v' : Val) (n' : Nat) (hty : HasTyU p c s t) (hwt : WT p.conv.env v s) (hold : OldOK p.conv.env old t)
     (hev : evalConv p fuel fr c v old n = .ok (v', n')) :
-    ImgOnto p.conv.env s t v (erase old) (erase v') :=
+    ImgOnto p.conv.env (CtorSig p) s t v (erase old) (erase v') :=
   (sound_allU p hp fuel).1 fr c s t v old n v' n' hty hwt hold hev
 
-/-- the same for a call of a generated / declared (non-update) method: the result is the image onto a fresh zero value -/
+/-- the same for a call of a generated / declared (non-update) method: whatever the caller's location held, it now holds
+the method's result — the image onto a fresh zero value, or (default constructor) onto / on top of FUNC's result -/
 theorem callMethod_onto (p : Program) (hp : ProgOKU p) (fuel m : Nat) (s t : Ty) (v : Val) (cs : List Val) (n : Nat)
     (v' : Val) (n' : Nat) (hsig : sigOf p m = some (s, t)) (hwt : WT p.conv.env v s)
+    (hev : callMethod p fuel m v cs n = .ok (v', n')) (old : Val) :
+    ImgOnto p.conv.env (CtorSig p) s t v old (erase v') :=
+  (sound_allU p hp fuel).2.1 m s t v cs n v' n' hsig hwt hev old
+
+/-- a method without default constructor: the result is the image onto a fresh zero value -/
+theorem callMethod_plain_onto (p : Program) (hp : ProgOKU p) (fuel m : Nat) (gm : GenMethod) (c : Conv) (v : Val)
+    (cs : List Val) (n : Nat) (v' : Val) (n' : Nat) (hm : p.methods[m]? = some gm) (hb : gm.body = some (.convert c))
+    (hty : HasTyU p c gm.source gm.target) (hwt : WT p.conv.env v gm.source)
     (hev : callMethod p fuel m v cs n = .ok (v', n')) :
-    ImgOnto p.conv.env s t v (erase (zeroVal p.conv.env 64 t)) (erase v') :=
-  (sound_allU p hp fuel).2.1 m s t v cs n v' n' hsig hwt hev
+    ImgOnto p.conv.env (CtorSig p) gm.source gm.target v (erase (zeroVal p.conv.env 64 gm.target)) (erase v') := by
+  cases fuel with
+  | zero => unfold callMethod at hev; cases hev
+  | succ fuel =>
+    unfold callMethod at hev
+    simp only [hm, hb] at hev
+    exact evalConv_onto p hp fuel _ c _ _ v _ n v' n' hty hwt (oldOK_zeroVal _ 64 _) hev
 
 /-- a struct node, with the configuration of ITS fields exposed (`modesOf plans`); the source is the struct or — in an
 update method with a pointer source — a pointer to it -/
@@ -555,7 +839,7 @@ theorem structc_onto (p : Program) (hp : ProgOKU p) (fuel : Nat) (fr : Frame) (p
     (hwt : WT p.conv.env (.struct fs) s) (hold : OldOK p.conv.env old t)
     (hev : evalConv p fuel fr (.structc plans upd) src old n = .ok (v', n')) :
     ∃ ws, v' = .struct ws ∧
-      ImgFieldsOnto p.conv.env (modesOf plans) sfs.toList fs tfs.toList (oldFields (erase old)) (erase.eraseFields ws) := by
+      ImgFieldsOnto p.conv.env (CtorSig p) (modesOf plans) sfs.toList fs tfs.toList (oldFields (erase old)) (erase.eraseFields ws) := by
   cases fuel with
   | zero => unfold evalConv at hev; cases hev
   | succ fuel =>
@@ -614,16 +898,19 @@ theorem convert_struct_onto (p : Program) (hp : ProgOKU p) (fuel m : Nat) (gm : 
     (fs : List (S × Val)) (hwt : WT p.conv.env (.struct fs) gm.source) (cs : List Val) (n : Nat) (v' : Val) (n' : Nat)
     (hev : callMethod p fuel m (.struct fs) cs n = .ok (v', n')) :
     (fieldNames tfs.toList).Nodup ∧ ∃ ws, v' = .struct ws ∧
-      ImgFieldsOnto p.conv.env (modesOf plans) sfs.toList fs tfs.toList
+      ImgFieldsOnto p.conv.env (CtorSig p) (modesOf plans) sfs.toList fs tfs.toList
         (erase.eraseFields (zeroVal.zeroFields p.conv.env 63 tfs.toList)) (erase.eraseFields ws) := by
   cases fuel with
   | zero => unfold callMethod at hev; cases hev
   | succ fuel =>
     unfold callMethod at hev
     simp only [hm, hb] at hev
-    have hty := hp m gm hm
-    unfold BodyOKU at hty
-    simp only [hb] at hty
+    have hty0 := hp m gm hm
+    unfold BodyOKU at hty0
+    simp only [hb] at hty0
+    have hty : HasTyU p (.structc plans upd) gm.source gm.target := by
+      cases hty0 with
+      | plain h => exact h
     have hnd : (fieldNames tfs.toList).Nodup := by
       cases hty with
       | structc hs' ht' hnd _ => rw [ht] at ht'; cases ht'; exact hnd
@@ -652,7 +939,7 @@ theorem update_struct_onto (p : Program) (hp : ProgOKU p) (m : Nat) (gm : GenMet
     (fuel : Nat) (fr : Frame) (n : Nat) (v' : Val) (n' : Nat)
     (hev : evalConv p fuel fr (.structc plans upd) src old n = .ok (v', n')) :
     ∃ ws, v' = .struct ws ∧
-      ImgFieldsOnto p.conv.env (modesOf plans) sfs.toList fs tfs.toList (oldFields (erase old)) (erase.eraseFields ws) := by
+      ImgFieldsOnto p.conv.env (CtorSig p) (modesOf plans) sfs.toList fs tfs.toList (oldFields (erase old)) (erase.eraseFields ws) := by
   have hty := hp m gm hm
   unfold BodyOKU at hty
   simp only [hb] at hty
@@ -672,5 +959,98 @@ theorem update_struct_onto (p : Program) (hp : ProgOKU p) (m : Nat) (gm : GenMet
       cases hse
       exact h
   exact structc_onto p hp fuel fr plans upd s t sfs tfs src fs old n v' n' hty' hs ht hsrc hwt hold hev
+
+/-! ### methods with a default constructor (C11) -/
+
+/-- plain `default FUNC`: the method returns the conversion of its source ONTO FUNC's result `init` (for a pointer target:
+a pointer at the first location the call allocates) -/
+theorem default_method_onto (p : Program) (hp : ProgOKU p) (fuel m : Nat) (gm : GenMethod) (ctor : Conv) (tp : Bool) (rest : Conv)
+    (hm : p.methods[m]? = some gm) (hb : gm.body = some (.convert (.withCtor ctor tp rest)))
+    (v : Val) (hwt : WT p.conv.env v gm.source) (cs : List Val) (n : Nat) (v' : Val) (n' : Nat)
+    (hev : callMethod p fuel m v cs n = .ok (v', n')) :
+    ∃ init, IsCtorOf p.conv.env gm.target (erase init) ∧
+      (∀ te, under p.conv.env gm.target = .ptr te → ∃ tv, init = .ptr (.fresh n) tv) ∧
+      ImgOnto p.conv.env (CtorSig p) gm.source gm.target v (erase init) (erase v') ∧
+      (∀ se, under p.conv.env gm.source = .ptr se → v = .nil → v' = init) := by
+  cases fuel with
+  | zero => unfold callMethod at hev; cases hev
+  | succ fuel =>
+    unfold callMethod at hev
+    simp only [hm, hb] at hev
+    have hok := hp m gm hm
+    unfold BodyOKU at hok
+    simp only [hb] at hok
+    cases fuel with
+    | zero => unfold evalConv at hev; cases hev
+    | succ f =>
+      cases hok with
+      | plain h => cases h
+      | withCtor hc hnc hty => exact withCtor_step p f (sound_allU p hp f).1 _ ctor tp rest _ _ v _ n v' n' hc hnc hty hwt hev
+
+/-- `default FUNC` with default:update: the method returns FUNC's result with the source applied on top (`CtorImg … true`);
+for a pointer target the pointer returned is FUNC's own (`init`), at the first location the call allocates -/
+theorem default_update_method_onto (p : Program) (hp : ProgOKU p) (fuel m : Nat) (gm : GenMethod) (ctor : Conv)
+    (tp sp tz : Bool) (inner : Conv)
+    (hm : p.methods[m]? = some gm) (hb : gm.body = some (.convert (.ctorUpdate ctor tp sp tz inner)))
+    (v : Val) (hwt : WT p.conv.env v gm.source) (cs : List Val) (n : Nat) (v' : Val) (n' : Nat)
+    (hev : callMethod p fuel m v cs n = .ok (v', n')) :
+    ∃ init, IsCtorOf p.conv.env gm.target (erase init) ∧
+      CtorImg p.conv.env (CtorSig p) true gm.source gm.target v (erase init) (erase v') ∧
+      (tz = true → ∃ tv nv, init = .ptr (.fresh n) tv ∧ v' = .ptr (.fresh n) nv) ∧
+      (sp = true → v = .nil → v' = init) := by
+  cases fuel with
+  | zero => unfold callMethod at hev; cases hev
+  | succ fuel =>
+    unfold callMethod at hev
+    simp only [hm, hb] at hev
+    have hok := hp m gm hm
+    unfold BodyOKU at hok
+    simp only [hb] at hok
+    cases fuel with
+    | zero => unfold evalConv at hev; cases hev
+    | succ f => exact ctorUpdate_step p f (sound_allU p hp f).1 _ ctor tp sp tz inner _ _ v _ n v' n' hok hwt hev
+
+theorem ctorVal_struct {env : TEnv} {t : Ty} {tfs : Fields} (k : Nat) (h : under env t = .struct tfs) :
+    ctorVal env (k + 1) t = .struct (ctorVal.ctorFields env k tfs.toList) := by
+  unfold ctorVal; simp [h]
+
+/-- plain `default FUNC` on a struct → struct method: field by field, the previous values being FUNC's field values
+(so ignored fields keep FUNC's values) -/
+theorem default_struct_onto (p : Program) (hp : ProgOKU p) (fuel m : Nat) (gm : GenMethod) (ctor : Conv) (tp : Bool)
+    (plans : FieldPlans) (upd : Bool)
+    (hm : p.methods[m]? = some gm) (hb : gm.body = some (.convert (.withCtor ctor tp (.structc plans upd))))
+    (sfs tfs : Fields) (hs : under p.conv.env gm.source = .struct sfs) (ht : under p.conv.env gm.target = .struct tfs)
+    (fs : List (S × Val)) (hwt : WT p.conv.env (.struct fs) gm.source) (cs : List Val) (n : Nat) (v' : Val) (n' : Nat)
+    (hev : callMethod p fuel m (.struct fs) cs n = .ok (v', n')) :
+    ∃ ws, v' = .struct ws ∧
+      ImgFieldsOnto p.conv.env (CtorSig p) (modesOf plans) sfs.toList fs tfs.toList
+        (erase.eraseFields (ctorVal.ctorFields p.conv.env 63 tfs.toList)) (erase.eraseFields ws) := by
+  cases fuel with
+  | zero => unfold callMethod at hev; cases hev
+  | succ fuel =>
+    unfold callMethod at hev
+    simp only [hm, hb] at hev
+    have hok := hp m gm hm
+    unfold BodyOKU at hok
+    simp only [hb] at hok
+    cases fuel with
+    | zero => unfold evalConv at hev; cases hev
+    | succ f =>
+      cases hok with
+      | plain h => cases h
+      | withCtor hc hnc hty =>
+        unfold evalConv at hev
+        obtain ⟨cv, n1, h1, h2⟩ := (E_bind_ok _ _ _ _).1 hev
+        obtain ⟨init, n2, h3, h4⟩ := ite_bind_ok _ _ _ _ _ _ h2
+        obtain ⟨hI, hO, _⟩ := ctor_init p hc f _ (.struct fs) .nil n cv n1 init n2 h1 h3
+        obtain ⟨ws, hv', himg⟩ := structc_onto p hp f _ plans upd gm.source gm.target sfs tfs (.struct fs) fs init n2 v' n' hty hs ht
+          (.inl rfl) hwt hO h4
+        refine ⟨ws, hv', ?_⟩
+        have hE : erase init = erase (ctorVal p.conv.env 64 gm.target) := by
+          rcases hI with ⟨_, h⟩ | ⟨te, hte, _⟩
+          · exact h
+          · rw [ht] at hte; cases hte
+        rw [hE, ctorVal_struct 63 ht] at himg
+        exact himg
 
 end Gv.Sound
